@@ -31,6 +31,9 @@ def run(check: Check, repo: Repo, tier: str) -> None:
     S.validation_cache(check, repo)
     S.reserved_names(check, repo)
     S.cycle_edge_by_type(check, repo)
+    from rules import sdl_rules as D20
+    # 'a valid schema is accepted': a document relying on the conventional root names gets its roots
+    D20.root_names_agree(check, repo)
     S.unvalidated_elements(check, repo)
     S.deprecation_direction(check, repo)
     from rules import sdl_rules as D
